@@ -304,6 +304,43 @@ def T2(inp, k, bad, what):
                vars=dict(what=what, bad=bad, badlen=fld_bad if fld_bad is not None else 0))
 
 
+@obligation('T2h', props=('C13', 'C14'), quick=[dict(k=2, rej=0), dict(k=3, rej=1)], stubs=_STUBS,
+            bounds='k<=3 valid frames of symbolic length 1..100000 in one stream, 2 read events of <=2 symbolic fragments, then drain; the message handler closes the connection while it handles frame rej (what a rejected hello does)')
+def T2h(inp, k, rej):
+    """the handler disconnects while handling a message: the frames that were received behind it (same read round or later)
+    are never handed to the application, the disconnect is reported once, no exception escapes."""
+    codec = install(inp)
+    R = inp.int('recvbuf', 1, 65536)
+    a, b, ca, cb, got, disc = _pair(inp, R)
+
+    def handler(m):
+        got.append(m)
+        if m == rej:
+            cb.disconnect()
+    cb.setOnMessageReceivedCallback(handler)
+    wire = Blob()
+    for i in range(k):
+        L = inp.int('L%d' % i, 1, LMAX)
+        codec.lengths[i] = L
+        wire = wire + codec.pack('i', L) + codec.compress(('pickled', i))
+    b.wire = wire
+    exc = None
+    for ev in range(2):
+        b.recv_budget = 2
+        _, exc = guard(getattr(cb, '_TcpConnection__processConnection'), 7, POLL_EVENT_TYPE.READ)
+        if exc is not None or cb.state == CONNECTION_STATE.DISCONNECTED:
+            break
+    if exc is None and cb.state != CONNECTION_STATE.DISCONNECTED:
+        b.recv_budget = -1
+        _, exc = guard(getattr(cb, '_TcpConnection__processConnection'), 7, POLL_EVENT_TYPE.READ)
+    cl = {'no_exception_escapes': exc is None}
+    cl['in_order_once'] = got == list(range(len(got)))
+    cl['nothing_delivered_behind_the_rejected_frame'] = all(m <= rej for m in got)
+    cl['disconnect_reported_once_when_rejected'] = len(disc) == (1 if rej in got else 0)
+    cl['everything_read_means_rejected'] = Implies(Eq(b.wire.slen(), 0), cb.state == CONNECTION_STATE.DISCONNECTED)
+    return Res(cl, nontrivial=rej in got, obs=lambda: dict(k=k, rej=rej, got=list(got), disc=list(disc), state=cb.state, exc=show(exc)))
+
+
 @obligation('T3', props=('C13', 'C14'), quick=[dict()], stubs=_STUBS, bounds='one connection with symbolic amounts of unsent and unparsed bytes')
 def T3(inp):
     """disconnect(): both buffers are emptied, the descriptor is unsubscribed, the callback fires exactly once, a second
